@@ -251,8 +251,12 @@ func (d *motionDetector) warmerDiffFrames(a, b, out *cptvframe.Frame) *cptvframe
 func (d *motionDetector) updateBackground(new_frame *cptvframe.Frame, prevFFC bool) (float64, bool) {
 	d.backgroundFrames++
 	if d.backgroundFrames == 1 {
+		var seedAverage float64 = 0
 		for y := d.start; y < d.rowStop; y++ {
 			copy(d.background.Pix[y][d.start:d.columnStop], new_frame.Pix[y][d.start:d.columnStop])
+			for x := d.start; x < d.columnStop; x++ {
+				seedAverage = seedAverage + float64(d.background.Pix[y][x])/d.numPixels
+			}
 			for x := 0; x < d.start; x++ {
 				d.background.Pix[y][x] = new_frame.Pix[y][d.start]
 				d.background.Pix[y][d.columnStop+x] = new_frame.Pix[y][d.columnStop-1]
@@ -263,7 +267,7 @@ func (d *motionDetector) updateBackground(new_frame *cptvframe.Frame, prevFFC bo
 			copy(d.background.Pix[d.rowStop+y], d.background.Pix[d.rowStop-1])
 		}
 
-		return 0, true
+		return seedAverage, true
 	}
 
 	var changed bool = false
